@@ -1856,7 +1856,7 @@ fn strip_line_terminator(buf: &mut Vec<u8>) -> &[u8] {
 
 #[cfg(kani)]
 #[path = "/verif/harness/ripd/continuity_stream_cache.rs"]
-mod verif_kani;
+pub mod verif_kani;
 
 #[cfg(test)]
 mod tests {
